@@ -11,11 +11,17 @@ Reqs == {[chain |-> "2", tx |-> "aa"], [chain |-> "4", tx |-> "aa"], [chain |-> 
 Envs == {[kind |-> "req", claimed |-> c, signer |-> s, dom |-> d, same |-> TRUE, plen |-> 40, parses |-> TRUE, peer |-> "p1", req |-> r] :
             c \in {"g1", "g3", "x1"}, s \in {"g1", "g3", "x1"}, d \in {"req", "hb"}, r \in Reqs}
 
+NoEnvM == [kind |-> "none"]
+NetMsgs == {[from |-> f, decodes |-> d, kind |-> "req", tag |-> "", e |-> e] : f \in {"self", "p1"}, d \in BOOLEAN, e \in Envs}
+           \cup {[from |-> "p1", decodes |-> TRUE, kind |-> k, tag |-> "a", e |-> NoEnvM] : k \in {"obs", "vaa", "none"}}
+
 MInit == GuardianInit([c \in {"2", "4"} |-> 1]) /\ steps = 0
 MNext ==
     /\ steps < MaxSteps /\ steps' = steps + 1
     /\ \/ \E S \in {GA, GB} : SetUpdate(S)
        \/ \E e \in Envs : GossipRequest(e)
+       \/ \E m \in NetMsgs : NetMessage(m)
+       \/ \E r \in Reqs : OwnRequest(r, 40)
        \/ \E dt \in {4, 7, 12} : Tick(dt)
        \/ \E c \in {"2", "4"} : WatcherTakes(c)
 MSpec == MInit /\ [][MNext]_mvars
